@@ -333,37 +333,37 @@ theorem bangAll_writes_bang (d : Gen.D) (x : Expr) : TSP.toksE3 d TSP.bangAll (.
 /-- `!` is a NOT word of the Hive dialect and of no other; it is a unary operator of every dialect but Hive -/
 theorem bang_word_hive_only : Gen.allD.all (fun d => (Gen.notSet d).contains "!" == (d == .HIVE) && (Gen.unarySet d).contains "!" == (d != .HIVE)) = true := by
   decide
-def isNotA (r : Except Err (Expr × List Tok)) : Bool := match r with | .ok (.not_ (.column none "a"), []) => true | _ => false
-def isInvA (r : Except Err (Expr × List Tok)) : Bool :=
+def isNotASp (r : Except Err (Expr × List Tok)) : Bool := match r with | .ok (.not_ (.column none "a"), []) => true | _ => false
+def isInvASp (r : Except Err (Expr × List Tok)) : Bool :=
   match r with | .ok (.unary "LOGICAL_INVERSION" (.column none "a"), []) => true | _ => false
 /-- **separating instance**: `! a` is `NOT a` for Hive and the unary operator `LOGICAL_INVERSION` applied to `a` in every other dialect -/
 theorem bang_not_hive_only :
-    Gen.allD.all (fun d => if d == .HIVE then isNotA (pOr d 60 [opTok "!", nameTok "a"]) else isInvA (pOr d 60 [opTok "!", nameTok "a"])) = true := by
+    Gen.allD.all (fun d => if d == .HIVE then isNotASp (pOr d 60 [opTok "!", nameTok "a"]) else isInvASp (pOr d 60 [opTok "!", nameTok "a"])) = true := by
   decide
-def isBangIn (r : Except Err (Expr × List Tok)) : Bool :=
+def isBangInSp (r : Except Err (Expr × List Tok)) : Bool :=
   match r with | .ok (.compute (.column none "a") "LOGICAL_INVERSION" (.func none "IN" [.literal "1"]), []) => true | _ => false
-def isNotIn (r : Except Err (Expr × List Tok)) : Bool :=
+def isNotInSp (r : Except Err (Expr × List Tok)) : Bool :=
   match r with | .ok (.kw .in_ true (.column none "a") (.subValue [.literal "1"]), []) => true | _ => false
 /-- **witness (finding candidate)**: in the Hive dialect `a NOT IN (1)` is the negated IN predicate, but `a ! IN (1)` is NOT: the compute
 level takes `!` as a binary operator and `IN (1)` as a function call — the `!` of `get_not_operator_set` in the keyword-predicate position
 (`parser.py:902`) is dead code -/
 theorem witness_hive_bang_before_in :
-    isNotIn (pOr .HIVE 80 [nameTok "a", opTok "NOT", opTok "IN", grp [litTok "1"]]) = true ∧
-    isBangIn (pOr .HIVE 80 [nameTok "a", opTok "!", opTok "IN", grp [litTok "1"]]) = true := by decide
+    isNotInSp (pOr .HIVE 80 [nameTok "a", opTok "NOT", opTok "IN", grp [litTok "1"]]) = true ∧
+    isBangInSp (pOr .HIVE 80 [nameTok "a", opTok "!", opTok "IN", grp [litTok "1"]]) = true := by decide
 end C13
 
 namespace C09
-def isJoinTy (r : Option (String × List Tok)) (ty : String) : Bool := match r with | some (n, []) => n == ty | _ => false
+def isJoinTySp (r : Option (String × List Tok)) (ty : String) : Bool := match r with | some (n, []) => n == ty | _ => false
 /-- **not alike**: `INNER JOIN` is stored as join type `INNER_JOIN`, `JOIN` as `JOIN` — two different trees -/
-theorem inner_join_is_not_join : isJoinTy (firstEnum Gen.joinTypes [opTok "INNER", opTok "JOIN"]) "INNER_JOIN" = true ∧
-    isJoinTy (firstEnum Gen.joinTypes [opTok "JOIN"]) "JOIN" = true := by decide
-def isParseErr {α : Type} (r : Except Err α) : Bool := match r with | .error .parse => true | _ => false
+theorem inner_join_is_not_join : isJoinTySp (firstEnum Gen.joinTypes [opTok "INNER", opTok "JOIN"]) "INNER_JOIN" = true ∧
+    isJoinTySp (firstEnum Gen.joinTypes [opTok "JOIN"]) "JOIN" = true := by decide
+def isParseErrSp {α : Type} (r : Except Err α) : Bool := match r with | .error .parse => true | _ => false
 /-- **not alike**: `UNION DISTINCT` is no set operator of the table: `SELECT a UNION DISTINCT SELECT b` is a parse error -/
 theorem union_distinct_rejected :
-    isParseErr (pSelectStmt .MYSQL 200 none [opTok "SELECT", nameTok "a", opTok "UNION", opTok "DISTINCT", opTok "SELECT", nameTok "b"]) = true := by decide
+    isParseErrSp (pSelectStmt .MYSQL 200 none [opTok "SELECT", nameTok "a", opTok "UNION", opTok "DISTINCT", opTok "SELECT", nameTok "b"]) = true := by decide
 /-- **not alike**: the `AND` of `BETWEEN … AND …` is matched by word: `a BETWEEN 1 && 2` is a parse error, `&&` is only the conjunction -/
 theorem amp_is_not_between_and :
-    isParseErr (pOr .MYSQL 100 [nameTok "a", opTok "BETWEEN", litTok "1", opTok "&&", litTok "2"]) = true := by decide
+    isParseErrSp (pOr .MYSQL 100 [nameTok "a", opTok "BETWEEN", litTok "1", opTok "&&", litTok "2"]) = true := by decide
 end C09
 
 namespace C09
@@ -389,7 +389,7 @@ theorem div_mod_spellings (d : Gen.D) (sp : TSP.Sp) (hsp : TSP.SpOK d sp) (l r :
 /-! ### non-vacuity (compiled evaluation: `String` functions do not reduce in the kernel) -/
 open C03 in
 /-- a query that uses every production with a choice -/
-def qs : Query := .single (.mk (some []) false
+def spQs : Query := .single (.mk (some []) false
   [(col "a", some "x"), (.compute (col "b") "MOD" (lit "2"), none), (.subQuery (.single (sel [(.not_ (.compare "NEQ" (col "p") (lit "1")), some "y")] (some [tb "w" (some "k")]))), none)]
   (some [tb "t" (some "u")]) []
   [.mk "JOIN" (tb "v") (some (.on (.or_ (.and_ (.compare "NEQ" (col "a") (col "b")) (.not_ (col "c")))
@@ -402,51 +402,51 @@ def roundTripsSp (d : Gen.D) (sp : TSP.Sp) (q : Query) : Bool :=
   | .ok (p, []) => Drv.showVal p.toVal == Drv.showVal q.toVal
   | _ => false
 /-- the REAL parser model on a text (lexer, dialect pre-pass, `parse_statements`) returns exactly the SELECT statement of `q` -/
-def textParsesTo (d : Gen.D) (text : String) (q : Query) : Bool :=
+def textParsesToSp (d : Gen.D) (text : String) (q : Query) : Bool :=
   match PM.parseStatementsText d text.toList with
   | .ok [.select p] => Drv.showVal p.toVal == Drv.showVal q.toVal
   | _ => false
 -- the printer's own spelling, every alternative spelling (all dialects), `!` everywhere (Hive), `AS` dropped where allowed
-#guard agreesSp .MYSQL TSP.plain qs
+#guard agreesSp .MYSQL TSP.plain spQs
   "SELECT `a` AS x, `b` % 2, (SELECT NOT `p` != 1 AS y FROM `w` AS k) FROM `t` AS u JOIN `v` ON `a` != `b` AND NOT `c` OR `d` / `e` > 0 ORDER BY `a`, `b` DESC LIMIT 2, 5"
-#guard agreesSp .MYSQL TSP.altSp qs
+#guard agreesSp .MYSQL TSP.altSp spQs
   "SELECT `a` AS x, `b` MOD 2, (SELECT NOT `p` <> 1 AS y FROM `w` AS k) FROM `t` AS u JOIN `v` ON `a` <> `b` && NOT `c` || `d` DIV `e` > 0 ORDER BY `a` ASC, `b` DESC LIMIT 5 OFFSET 2"
-#guard agreesSp .HIVE TSP.bangAll qs
+#guard agreesSp .HIVE TSP.bangAll spQs
   "SELECT `a` AS x, `b` % 2, (SELECT ! `p` != 1 AS y FROM `w` AS k) FROM `t` AS u JOIN `v` ON `a` != `b` AND ! `c` OR `d` / `e` > 0 ORDER BY `a`, `b` DESC LIMIT 2, 5"
-#guard agreesSp .MYSQL (TSP.bareSp .MYSQL) qs
+#guard agreesSp .MYSQL (TSP.bareSp .MYSQL) spQs
   "SELECT `a` x, `b` % 2, (SELECT NOT `p` != 1 y FROM `w` k) FROM `t` u JOIN `v` ON `a` != `b` AND NOT `c` OR `d` / `e` > 0 ORDER BY `a`, `b` DESC LIMIT 2, 5"
-#guard Gen.allD.all (fun d => roundTripsSp d TSP.plain qs && roundTripsSp d TSP.altSp qs && roundTripsSp d (TSP.bareSp d) qs) && roundTripsSp .HIVE TSP.bangAll qs
+#guard Gen.allD.all (fun d => roundTripsSp d TSP.plain spQs && roundTripsSp d TSP.altSp spQs && roundTripsSp d (TSP.bareSp d) spQs) && roundTripsSp .HIVE TSP.bangAll spQs
 -- the real parser model (lexer + pre-pass + statement loop) on the four texts: one tree
-#guard textParsesTo .MYSQL "SELECT `a` AS x, `b` % 2, (SELECT NOT `p` != 1 AS y FROM `w` AS k) FROM `t` AS u JOIN `v` ON `a` != `b` AND NOT `c` OR `d` / `e` > 0 ORDER BY `a`, `b` DESC LIMIT 2, 5" qs &&
-  textParsesTo .MYSQL "select a x, b mod 2, (select not p <> 1 y from w k) from t u join v on a <> b && not c || d div e > 0 order by a asc, b desc limit 5 offset 2" qs &&
-  textParsesTo .HIVE "SELECT a x, b % 2, (SELECT ! p <> 1 y FROM w k) FROM t u JOIN v ON a != b && ! c OR d DIV e > 0 ORDER BY a ASC, b DESC LIMIT 5 OFFSET 2" qs
+#guard textParsesToSp .MYSQL "SELECT `a` AS x, `b` % 2, (SELECT NOT `p` != 1 AS y FROM `w` AS k) FROM `t` AS u JOIN `v` ON `a` != `b` AND NOT `c` OR `d` / `e` > 0 ORDER BY `a`, `b` DESC LIMIT 2, 5" spQs &&
+  textParsesToSp .MYSQL "select a x, b mod 2, (select not p <> 1 y from w k) from t u join v on a <> b && not c || d div e > 0 order by a asc, b desc limit 5 offset 2" spQs &&
+  textParsesToSp .HIVE "SELECT a x, b % 2, (SELECT ! p <> 1 y FROM w k) FROM t u JOIN v ON a != b && ! c OR d DIV e > 0 ORDER BY a ASC, b DESC LIMIT 5 OFFSET 2" spQs
 -- for MySQL the text with `!` is ANOTHER tree (the unary operator), and `bangAll` is not admissible outside Hive
-#guard !textParsesTo .MYSQL "SELECT a x, b % 2, (SELECT ! p <> 1 y FROM w k) FROM t u JOIN v ON a != b && ! c OR d DIV e > 0 ORDER BY a ASC, b DESC LIMIT 5 OFFSET 2" qs
-#guard !roundTripsSp .MYSQL TSP.bangAll qs
+#guard !textParsesToSp .MYSQL "SELECT a x, b % 2, (SELECT ! p <> 1 y FROM w k) FROM t u JOIN v ON a != b && ! c OR d DIV e > 0 ORDER BY a ASC, b DESC LIMIT 5 OFFSET 2" spQs
+#guard !roundTripsSp .MYSQL TSP.bangAll spQs
 -- aliases that must keep their `AS`: operator and keyword words, the words the alias parser refuses; ordinary words may drop it
 #guard !TSP.bareOK .MYSQL "div" && !TSP.bareOK .MYSQL "MOD" && !TSP.bareOK .MYSQL "and" && !TSP.bareOK .MYSQL "IN" && !TSP.bareOK .MYSQL "cross" &&
   !TSP.bareOK .MYSQL "using" && !TSP.bareOK .MYSQL "over" && !TSP.bareOK .MYSQL "as" && TSP.bareOK .MYSQL "x" && TSP.bareOK .HIVE "total"
 -- Hive `==` (text level, through the dialect pre-pass): the same tree as `=`; no other dialect reads it so
 open C03 in
-def qe : Query := .single (sel [(.compare "EQ" (col "a") (col "b"), none)] (some [tb "t"]))
-#guard textParsesTo .HIVE "SELECT a == b FROM t" qe && textParsesTo .HIVE "SELECT a = b FROM t" qe && textParsesTo .MYSQL "SELECT a = b FROM t" qe &&
-  !textParsesTo .MYSQL "SELECT a == b FROM t" qe
+def spQe : Query := .single (sel [(.compare "EQ" (col "a") (col "b"), none)] (some [tb "t"]))
+#guard textParsesToSp .HIVE "SELECT a == b FROM t" spQe && textParsesToSp .HIVE "SELECT a = b FROM t" spQe && textParsesToSp .MYSQL "SELECT a = b FROM t" spQe &&
+  !textParsesToSp .MYSQL "SELECT a == b FROM t" spQe
 -- instances of the theorems (hypotheses decided by the kernel, conclusions the theorems'; the kernel does not evaluate `toString` of the
 -- LIMIT numbers, hence a query without LIMIT)
 open C03 in
-def qk : Query := .single (.mk (some []) false
+def spQk : Query := .single (.mk (some []) false
   [(col "a", some "x"), (.compute (col "b") "MOD" (lit "2"), none), (.subQuery (.single (sel [(.not_ (.compare "NEQ" (col "p") (lit "1")), some "y")] (some [tb "w" (some "k")]))), none)]
   (some [tb "t" (some "u")]) []
   [.mk "JOIN" (tb "v") (some (.on (.or_ (.and_ (.compare "NEQ" (col "a") (col "b")) (.not_ (col "c")))
       (.compare "GT" (.compute (col "d") "DIVIDE" (col "e")) (lit "0")))))]
   none none none (some [.mk (col "a") false false false, .mk (col "b") true false false]) none none none none)
 set_option maxRecDepth 100000 in
-example : pSelectStmt .MYSQL (fuelFor (TSP.toksQ .MYSQL TSP.altSp qk ++ C03.lexed "; x")) none (TSP.toksQ .MYSQL TSP.altSp qk ++ C03.lexed "; x") =
-    .ok (qk, C03.lexed "; x") :=
-  tquery_spellings_entry_fuel .MYSQL TSP.altSp (TSP.spOK_alt _) qk (by decide) _ (by decide)
+example : pSelectStmt .MYSQL (fuelFor (TSP.toksQ .MYSQL TSP.altSp spQk ++ C03.lexed "; x")) none (TSP.toksQ .MYSQL TSP.altSp spQk ++ C03.lexed "; x") =
+    .ok (spQk, C03.lexed "; x") :=
+  tquery_spellings_entry_fuel .MYSQL TSP.altSp (TSP.spOK_alt _) spQk (by decide) _ (by decide)
 set_option maxRecDepth 100000 in
-example : pSelectStmt .HIVE 4000 none (TSP.toksQ .HIVE TSP.bangAll qk ++ C03.lexed ";") = .ok (qk, C03.lexed ";") :=
-  C13.dialect_governs_nested qk (by decide) _ (by decide) 4000 (by decide)
+example : pSelectStmt .HIVE 4000 none (TSP.toksQ .HIVE TSP.bangAll spQk ++ C03.lexed ";") = .ok (spQk, C03.lexed ";") :=
+  C13.dialect_governs_nested spQk (by decide) _ (by decide) 4000 (by decide)
 end C09
 
 /-! ### C13 at text level: the spellings the dialect PRE-PASS normalises (Hive `==`, DB2 `CURRENT DATE` …)
